@@ -78,8 +78,11 @@ type Result struct {
 	Blocked   []Blocked // threads blocked at quiescence
 	Horizon   bool      // step horizon hit
 	TraceHash uint64
-	Trace     []Step // only when Exec.KeepTrace
-	StateKeys []uint64
+	// TimerEarly counts timers that fired while a non-timer thread was runnable
+	// (0 = "every response arrived well within its timeout").
+	TimerEarly int
+	Trace      []Step // only when Exec.KeepTrace
+	StateKeys  []uint64
 }
 
 type Exec struct {
@@ -432,8 +435,13 @@ func (e *Exec) schedule(from *Thread) {
 		e.stateKey += k
 		e.res.StateKeys = append(e.res.StateKeys, e.stateKey)
 	}
-	if op.Timer && e.clock < op.Deadline {
-		e.clock = op.Deadline
+	if op.Timer {
+		if nNonTimer > 0 {
+			e.res.TimerEarly++
+		}
+		if e.clock < op.Deadline {
+			e.clock = op.Deadline
+		}
 	}
 	if next == from {
 		return
